@@ -328,10 +328,12 @@ class State:
         self.ghost = ghost if ghost is not None else {}     # python-level ghost variables (per path)
         self.quiet = quiet                                 # spec evaluation: reads generate no obligations
         self.labels = []                                   # context labels (e.g. which loop / phase) for obligation names
+        self.branches = []                                 # path conditions that come from control flow (as opposed to assumed facts)
 
     def copy(self):
         s = State(dict(self.env), dict(self.heap), list(self.pc), self.obl, list(self.trace), dict(self.ghost), self.quiet)
         s.labels = list(self.labels)
+        s.branches = list(self.branches)
         return s
 
     def peek_env(self):
@@ -356,6 +358,12 @@ class State:
         if isinstance(c, bool):
             c = z3.BoolVal(c)
         self.pc.append(c)
+
+    def assume_branch(self, c):
+        if isinstance(c, bool):
+            c = z3.BoolVal(c)
+        self.pc.append(c)
+        self.branches.append(c)
 
     # ---- heap arrays
     def harr(self, key, sort_fn):
@@ -528,7 +536,7 @@ class State:
             v = V(ety, z3.Select(z3.Select(a, lst.term), i), none=z3.Select(z3.Select(an, lst.term), i))
         else:
             v = V(ety, z3.Select(z3.Select(a, lst.term), i))
-        self.assume_alloc(v)
+        self.assume_alloc(v, a)
         return v
 
     def list_set(self, lst, idx, val, check=True):
@@ -593,7 +601,7 @@ class State:
             v = V(vty, z3.Select(self.dict_val(dct), kt), none=z3.Select(z3.Select(nn, dct.term), kt))
         else:
             v = V(vty, z3.Select(self.dict_val(dct), kt))
-        self.assume_alloc(v)
+        self.assume_alloc(v, self.dict_arrays(dct.ty)[1])
         return v
 
     def dict_set(self, dct, key, val):
